@@ -132,6 +132,49 @@ pub struct SimState {
     pub op_counter: u64,
     pub oplog: Vec<OpRecord>,
     pub record_oplog: bool,
+    /// per log file (inode): how far its contents have been parsed as log items
+    /// (`usize::MAX` = not judged any more)
+    pub log_parsed: std::collections::HashMap<u64, usize>,
+}
+
+const LOG_BLOCK: usize = 32768;
+const LOG_HDR: usize = 7;
+
+/// Parse `tail` (the bytes of a log file from absolute offset `pos` on) as complete log items:
+/// fragments (7-byte header with the payload length) and zero trailers where no header fits.
+/// Returns (offset up to which complete items were parsed, whether an item breaks the format's
+/// layout rule: a fragment that does not end inside its 32 KiB block, or a non-zero trailer).
+/// Independent of how the writer groups its write calls.
+fn parse_log_items(mut pos: usize, tail: &[u8]) -> (usize, bool) {
+    let mut idx = 0;
+    loop {
+        let off = pos % LOG_BLOCK;
+        let remaining = tail.len() - idx;
+        if LOG_BLOCK - off < LOG_HDR {
+            let want = LOG_BLOCK - off;
+            if remaining < want {
+                return (pos, false);
+            }
+            if tail[idx..idx + want].iter().any(|b| *b != 0) {
+                return (pos, true);
+            }
+            idx += want;
+            pos += want;
+            continue;
+        }
+        if remaining < LOG_HDR {
+            return (pos, false);
+        }
+        let len = u16::from_le_bytes([tail[idx + 4], tail[idx + 5]]) as usize;
+        if off + LOG_HDR + len > LOG_BLOCK {
+            return (pos, true);
+        }
+        if remaining < LOG_HDR + len {
+            return (pos, false);
+        }
+        idx += LOG_HDR + len;
+        pos += LOG_HDR + len;
+    }
 }
 
 /// Rendezvous: threads that arrive at a filesystem call of class `class` wait (up to `timeout`)
@@ -215,6 +258,7 @@ impl SimFs {
                     op_counter: 0,
                     oplog: vec![],
                     record_oplog: false,
+                    log_parsed: Default::default(),
                 }),
                 locker: InMemoryFileSystem::new(),
                 sink: Mutex::new(None),
@@ -415,6 +459,41 @@ impl SimHandle {
         } else {
             self.cursor
         };
+        // log files: does the file still consist of well-placed log items after this write?
+        let mut logbad = 0;
+        let (kind, _) = classify(&fs.root, &self.path);
+        if kind == "wal" || kind == "manifest" {
+            let st = &mut *st;
+            let existing: &[u8] = st.disk.inodes.get(&self.inode).map_or(&[], |f| &f[..]);
+            let parsed = match st.log_parsed.get(&self.inode) {
+                Some(p) => *p,
+                None => {
+                    // contents that were there before this filesystem object saw the file (a crash
+                    // image): judged only if they end in complete items
+                    let (p, bad) = parse_log_items(0, existing);
+                    let rest_is_trailer = p < existing.len()
+                        && LOG_BLOCK - p % LOG_BLOCK < LOG_HDR
+                        && existing[p..].iter().all(|b| *b == 0);
+                    if bad || !(p == existing.len() || rest_is_trailer) {
+                        usize::MAX
+                    } else {
+                        p
+                    }
+                }
+            };
+            let mut now = usize::MAX;
+            if parsed != usize::MAX && offset == existing.len() && parsed <= existing.len() {
+                let mut tail = existing[parsed..].to_vec();
+                tail.extend_from_slice(buf);
+                let (p, bad) = parse_log_items(parsed, &tail);
+                if bad {
+                    logbad = 1;
+                } else {
+                    now = p;
+                }
+            }
+            st.log_parsed.insert(self.inode, now);
+        }
         let op = JOp::Write {
             inode: self.inode,
             offset,
@@ -425,7 +504,7 @@ impl SimHandle {
             op,
             "write",
             &self.path,
-            json!({"len": buf.len(), "off": offset}),
+            json!({"len": buf.len(), "off": offset, "logbad": logbad}),
         );
         self.cursor = offset + buf.len();
         Ok(buf.len())
